@@ -43,6 +43,20 @@ theorem inv_step (s : St) (e : HEv) (hi : Inv s) (hok : StepOk s e) : Inv (step 
     · intro x hx hb
       simp only [step, List.mem_filter] at hx
       exact hi.new x hx.1 hb
+  | rename u b =>
+    constructor
+    · intro x hx hb
+      simp only [step, List.mem_map] at hx
+      obtain ⟨y, hy, rfl⟩ := hx
+      by_cases hu : (y.uid == u) = true
+      · simp only [hu, if_true] at hb ⊢; exact hi.old y hy hb
+      · simp only [hu] at hb ⊢; exact hi.old y hy hb
+    · intro x hx hb
+      simp only [step, List.mem_map] at hx
+      obtain ⟨y, hy, rfl⟩ := hx
+      by_cases hu : (y.uid == u) = true
+      · simp only [hu, if_true] at hb ⊢; exact hi.new y hy hb
+      · simp only [hu] at hb ⊢; exact hi.new y hy hb
   | testStart =>
     constructor
     · intro x hx _
